@@ -5,6 +5,7 @@ import re
 
 from ..astutil import call_attr, call_recv, calls_in, const_value, norm, walk_own
 from ..rules import describe
+from ..index import AnalysisError
 from ..selftest import Mutant
 
 ID = "C34"
@@ -166,7 +167,7 @@ def run(ctx):
                         bad.append((ident, enc, got))
         except Unsupported as ex:
             evaluable = False
-            ctx.info("identity-verbatim", we, f"slice of `{target}` not evaluable ({ex}); not decided on this run")
+            raise AnalysisError(f"{we}: slice of `{target}` not evaluable by the abstract interpreter ({ex}) — hand-confirmed evaluable on the pinned tree, so the rule cannot be decided on this one")
         if evaluable:
             ctx.fact(n_rows)
             ctx.check("identity-verbatim", we, not bad, f"`{target}` reproduces a well-formed identity byte for byte ({n_rows} rows: {len(idents)} identities x 3 encodings; slice of {len(sl)} statements)", construct=str(bad[:2]), message=f"export_commit rewrites a well-formed identity: {bad[:2]} — a git commit whose author or committer has this form is exported with different bytes, hence another SHA-1")
